@@ -242,8 +242,34 @@ def extract_write_and_drop():
     return {"writeFlushes": [out["blocking"], out["async"], out["ws"]], "wsDropClosesOnlyLast": only_last}
 
 
+def extract_timers():
+    """No timer of its own in the response loops or on the sockets: a `sleep`, `timeout(`, `interval`,
+    `Instant`, `recv_timeout`, `set_read_timeout` / `set_nonblocking` in `spawn_response_loop`,
+    `fail_all_pending` or `connect*` would make a slow peer look like a dead one. Anything of that kind is
+    a pessimistic fact."""
+    rx = r"\bsleep\b|\btimeout\s*\(|\binterval\b|\bInstant\b|\brecv_timeout\b|set_read_timeout|set_nonblocking|\bDuration\b|\bdeadline\b|poll_timeout|\btry_read\b"
+    out = []
+    for kind, path, ty in FILES:
+        src = test_mod_cut(strip(read(path)))
+        clean = True
+        for fn in ("spawn_response_loop", "fail_all_pending"):
+            if re.search(rx, fn_body(src, fn)):
+                clean = False
+        imp = impl_block(src, r"impl " + ty + r"\s*\{")
+        for fn in ("connect", "connect_with_limits"):
+            try:
+                b = fn_body(imp, fn)
+            except ExtractError:
+                continue
+            if re.search(rx, b):
+                clean = False
+        out.append(clean)
+    return out
+
+
 def extract():
     f = {kind: extract_one(kind, path, ty) for kind, path, ty in FILES}
+    f["readersHaveNoTimer"] = extract_timers()
     f["writeDrop"] = extract_write_and_drop()
     f["wsControl"] = extract_ws_control()
     return f
@@ -275,6 +301,8 @@ def render(facts):
             "",
             "/-- `write_request` of Client / AsyncClient / WebSocketClient puts the whole request on the wire before it returns. -/",
             f"def writeFlushes : List Bool := [{', '.join(_b(x) for x in facts['writeDrop']['writeFlushes'])}]",
+            "/-- Response loops, failure path and `connect` of the three clients contain no timer, sleep, deadline or socket read timeout. -/",
+            f"def readersHaveNoTimer : List Bool := [{', '.join(_b(x) for x in facts['readersHaveNoTimer'])}]",
             "/-- `Drop for WebSocketClient` closes the writer only when the last handle is dropped. -/",
             f"def wsDropClosesOnlyLast : Bool := {_b(facts['writeDrop']['wsDropClosesOnlyLast'])}",
             "", "end Repe.Gen.Mux", ""]
